@@ -1,14 +1,24 @@
 #!/bin/bash
 # run_seed.sh <seed-name> <property> [tier] : apply a seeded change to /repo, run the check, undo.
+# The evidence file and replays of the property are saved before and restored after,
+# so that what is committed always comes from the unchanged tree.
 set -u
 S=$1; P=$2; T=${3:-quick}
 cd /verif
 if ! git -C /repo diff --quiet; then echo "/repo has uncommitted changes"; exit 2; fi
 git -C /repo apply /verif/seeded/$S/patch.diff || { echo "patch failed"; exit 2; }
+bk=$(mktemp -d)
+[ -f evidence/$P.json ] && cp evidence/$P.json $bk/
+[ -d replays/$P ] && cp -r replays/$P $bk/replays
 timeout 3600 bin/gosym check -p $P -tier $T > /tmp/seedrun_$S.out 2>/tmp/seedrun_$S.err; rc=$?
 git -C /repo checkout -- .
+mkdir -p seeded/$S/detected_by && rm -f seeded/$S/detected_by/$P-*.json
+if [ $rc -eq 1 ] && [ -d replays/$P ]; then cp replays/$P/*.json seeded/$S/detected_by/ 2>/dev/null; for f in seeded/$S/detected_by/*.json; do [ -f "$f" ] && mv "$f" "seeded/$S/detected_by/$P-$(basename $f)"; done; fi
+rmdir seeded/$S/detected_by 2>/dev/null
+rm -rf replays/$P; [ -d $bk/replays ] && cp -r $bk/replays replays/$P
+[ -f $bk/$P.json ] && cp $bk/$P.json evidence/$P.json
+rm -rf $bk
 echo "seed=$S property=$P tier=$T exit=$rc"
 grep -E "^(VIOLATION|KNOWN-FINDING)" /tmp/seedrun_$S.out | cut -c1-300
 grep -c "^INCONCLUSIVE" /tmp/seedrun_$S.out | sed 's/^/inconclusive lines: /'
 tail -1 /tmp/seedrun_$S.out
-# restore evidence from the unchanged tree is the caller's job (re-run the check)
